@@ -1280,6 +1280,7 @@ func genC09(c *Ctx) {
 		}
 		s.close()
 	}
+	genC09Docs(c)
 }
 
 // replayC09 rebuilds the scenario from a recorded op (texts, how each file is open, order,
